@@ -25,7 +25,11 @@ META = {'rule': 'objective: n in 1..8 (thorough 12), non-negative flow / distanc
          'numbers of two blocks (n|flows|distances) or a matrix row is split '
          'over lines. reject: the same texts with 1.. trailing numbers '
          'removed or 1..3 surplus numbers on the last data line must raise '
-         "ValueError; distinct = distinct cases Additionally 'fuzz_qaplib': "
+         "ValueError; large: n in {64, 127..129, 200, 255..258, 300} "
+         "through the constructor or QAPLIB text, matrices from an "
+         "arithmetic formula, one shuffled permutation; distinct = distinct "
+         "cases Additionally 'fuzz_qaplib' (texts that are certainly valid "
+         "must load): "
          'coverage-guided fuzzing (atheris/libFuzzer, token-level custom '
          'mutator, seed corpus on even shards / empty corpus on odd shards) '
          'of from_qaplib_stream with the oracle inside the target: whenever '
